@@ -197,6 +197,14 @@ pub fn generate(_ctx: &mut Ctx, seed: u64, i: usize, kind: &str, always_malforme
             src += &format!("{indent}{}</block>{}\n", lang.open, lang.close);
         }
     }
+    // one case in six: an exact copy of everything written so far (same tags, same attributes, same content) appended to the
+    // file, and one case in six: the same text again as a second file - a result, a key set or a compiled rule remembered
+    // from one block must not leak into an identical block elsewhere (its own position, its own verdict)
+    let mut twin_file: Option<String> = None;
+    if kind != "affects" && kind != "check-lua" && kind != "check-ai" {
+        if rng.chance(1, 6) { let copy = src.clone(); src += "between copies\n"; src += &copy; }
+        if rng.chance(1, 6) { twin_file = Some(src.clone()); }
+    }
     // one case in four: bystander blocks carrying OTHER synchronous rules, each violated, in the same file, and every
     // validator enabled - the diagnostics of several validators for one file have to be merged, none may displace another
     let mut enabled = vec![kind.to_string()];
@@ -217,10 +225,17 @@ pub fn generate(_ctx: &mut Ctx, seed: u64, i: usize, kind: &str, always_malforme
     let changes = if all_changed {
         Some([(path.clone(), (1..=src.lines().count() + 1).map(|l| (l, None)).collect())].into_iter().collect())
     } else { None };
+    let mut files = vec![(path.clone(), Some(src))];
+    let mut walk = vec![path.clone()];
+    if let (Some(t), None) = (twin_file, &changes) {
+        let p2 = format!("sub/g.{}", lang.ext);
+        files.push((p2.clone(), Some(t)));
+        walk.push(p2);
+    }
     Case {
-        files: vec![(path.clone(), Some(src))],
-        walk: vec![path.clone()],
-        allow: vec![path],
+        files,
+        walk: walk.clone(),
+        allow: walk,
         scan: true,
         changes,
         enabled,
